@@ -34,6 +34,12 @@ CHECKS = {
     "C28": dict(cat="other", tech="real OPB renderers run per shape; text evaluated by an independent pseudo-Boolean evaluator under all assignments (truth table)",
                 text="Every clause (<=3/4 literals over 5 ids), every request (kind, n<=5/6, k) and every blocking constraint (support<=4/5) is rendered by the real functions and compared with the SAT-side meaning under all assignments: complete per shape, bounded in shape.",
                 note="spec/opb.py evaluator trusted; Gurobi absent so only the exported text is judged.", ref="4.1 C28"),
+    "C11": dict(cat="other", tech="contracts on the three converters evaluated for every formula of a bounded space under all assignments (truth table); cnf_to_json faithfulness",
+                text="For every formula with <= 2 connectives over 5 literals (plus n-ary/empty And/Or), seeded larger formulas and id renamings, under ALL assignments: Tseitin has exactly the formula's models on the original variables with a unique extension and fresh ids in the reported range; naive is equivalent without new variables; switching has the same projected models. Complete per formula, bounded in formula size — the quantifier the property itself names.",
+                note="Truth-table evaluator trusted; structural-induction node lemmas are not machine-checked (the recursion over namedtuples/str cache keys is outside pyvc.wp).", ref="4.1 C11"),
+    "C27": dict(cat="exploration", tech="bounded contract evaluation of the DIMACS writers, the library's two parsers and update_file against an independent reader; blocking clause by truth table",
+                text="Round trips of compiled formulas of D and seeded clause sets through save_cnf, both library parsers and update_file; header counts; sampling-set lines across the 10-per-line chunking; synthetic solver outputs incl. wrapped v-lines; the blocking clause is evaluated under all assignments of supports <= 5.",
+                note="String theories were not used (unstable per the brief); formulas with contiguous ids and non-empty clauses as the library generates them.", ref="4.1 C27"),
     "C12": dict(cat="other", tech="contracts on the real builders; concolic execution, gates proved for all inputs (loop-free, all paths), adders/pop count per width by z3 against callee contracts",
                 text="half/full/saturate adders: loop-free, every path explored and covered by the precondition, clause set equivalent to the definitions for all ids and assignments (proved). ripple_carry, ripple_saturate, pop_count: proved per width against callee contracts (sum equation with documented top-bit saturation; every fresh variable defined exactly once => no other freedom). Bounded in width only.",
                 note="Widths bounded (quick: ripple<=10, pop count n<=16); Lemma DE on paper; SMT solvers trusted.", ref="4.1 C12"),
